@@ -132,6 +132,7 @@ Section Levels.
   Fixpoint args_loop (k : nat) (acc : list expr) (ts : list tok) : resl :=
     match ts with
     | TRP :: r => OkL acc r
+    | [] => ErrL                                              (* lexer.peek() raises *)
     | _ =>
       match k with
       | O => FuelL
